@@ -224,6 +224,8 @@ type offered struct {
 	Publics [][]byte
 	Errs    []string // the reads that failed: "name: error"
 	OK      []string // the reads that succeeded
+	// By: what every successful reader of private / symmetric keys returned, in its order
+	By map[string][][]byte
 }
 
 func (o offered) hasSecret(v []byte) bool {
@@ -246,7 +248,7 @@ func (o offered) hasPublic(v []byte) bool {
 
 // read reads one key through every reader the keystore API has for its kind.
 func read(ks kshist.KeyStore, k kshist.K) offered {
-	var o offered
+	o := offered{By: map[string][][]byte{}}
 	id := []byte(k.ID)
 	note := func(name string, err error) bool {
 		if err != nil {
@@ -259,24 +261,30 @@ func read(ks kshist.KeyStore, k kshist.K) offered {
 	priv := func(name string, p *keys.PrivateKey, err error) {
 		if note(name, err) && p != nil {
 			o.Secrets = append(o.Secrets, cp(p.Value))
+			o.By[name] = [][]byte{cp(p.Value)}
 		}
 	}
 	privs := func(name string, ps []*keys.PrivateKey, err error) {
 		if note(name, err) {
+			o.By[name] = [][]byte{}
 			for _, p := range ps {
 				o.Secrets = append(o.Secrets, cp(p.Value))
+				o.By[name] = append(o.By[name], cp(p.Value))
 			}
 		}
 	}
 	sym := func(name string, s []byte, err error) {
 		if note(name, err) {
 			o.Secrets = append(o.Secrets, cp(s))
+			o.By[name] = [][]byte{cp(s)}
 		}
 	}
 	syms := func(name string, ss [][]byte, err error) {
 		if note(name, err) {
+			o.By[name] = [][]byte{}
 			for _, s := range ss {
 				o.Secrets = append(o.Secrets, cp(s))
+				o.By[name] = append(o.By[name], cp(s))
 			}
 		}
 	}
